@@ -240,7 +240,7 @@ def run_job(job, tree, trace=False):
     out["fails"] = fails
     out["status"] = "fail" if fails else "ok"
     inv_broken = [r for r in fails if re.search(r"\.loop_(invariant_base|invariant_step|decreases|assigns|step_unwinding)\.", r["name"])]
-    if fails and job.loops and job.enforce and inv_broken:
+    if fails and job.loops and (job.enforce or job.harness == "h_ct_vecloop.c") and inv_broken:
         # A loop invariant / variant of this job is not inductive for the code as it is now.  Everything CBMC reports behind the
         # havocked loop head - including memory-safety checks in the real loop body - is then evaluated in states the invariant no
         # longer describes.  The invariant may be broken because the code is wrong or because the loop was restructured; the job
